@@ -235,7 +235,7 @@ class Run(RunBase):
     def _check_pool(self, op):
         """Black-box exactness of the id pool: on a deep copy, a throw-away object with id i can be added iff
         no contained object uses i."""
-        probe_ids = set(range(1, MAX_ID + 1)) | set(self.m.returned) | set(self.m.contained)
+        probe_ids = set(range(0, MAX_ID + 1)) | set(self.m.returned) | set(self.m.contained)
         twin = copy.deepcopy(self.sc)
         for i in sorted(probe_ids):
             try:
@@ -740,7 +740,7 @@ class C09(Property):
         weights = [4, 2, 2, 3, 2, 2, 1, 1]
         for j in range(n):
             kind = rng.weighted(kinds, weights)
-            i = rng.randint(1, MAX_ID)
+            i = 0 if rng.chance(0.04) else rng.randint(1, MAX_ID)  # 0 is the smallest legal id
             extra = {}
             if kind == "lanelet" and rng.chance(0.25):
                 # references to ids that need not be signs / lights at all (legal: a lanelet only stores ids) -
